@@ -52,6 +52,8 @@ inductive E where
   | snd (a : E)
   /-- `char.Width` of a drawn character -/
   | width (a : E)
+  | tt
+  | ff
   | unknown (src : String)
   deriving Repr, Inhabited
 
@@ -181,6 +183,9 @@ structure Ctx (A : Type) where
   call : String → List (V A) → Env A → Option (Env A × V A)
   /-- `ctx.Characters(cluster)` in `Draw`: the widths of the characters a cluster is drawn as -/
   drawW : List A → List Int := fun _ => []
+  /-- `unicode.IsLetter`, `unicode.IsNumber` of a code point -/
+  isLetter : A → Bool := fun _ => false
+  isNumber : A → Bool := fun _ => false
 
 def cmpI (op : String) (x y : Int) : V A :=
   if op = "==" then .bool (decide (x = y))
@@ -281,6 +286,7 @@ def evalE [DecidableEq A] (cx : Ctx A) (env : Env A) : E → V A
   | .index a i =>
     (match evalE cx env a, evalE cx env i with
      | .chars l, .num k => if 0 ≤ k then (match l[k.toNat]? with | some c => .str c | none => .err "index out of range") else .err "index out of range"
+     | .str l, .num k => if 0 ≤ k then (match l[k.toNat]? with | some a => .str [a] | none => .err "index out of range") else .err "index out of range"
      | _, _ => .err "index")
   | .slice a lo hi => sliceE (evalE cx env a) lo.isAbsent (evalE cx env lo) hi.isAbsent (evalE cx env hi)
   | .absent => .err "absent"
@@ -299,9 +305,13 @@ def evalE [DecidableEq A] (cx : Ctx A) (env : Env A) : E → V A
      | _, _, _ => .err "slices.Insert")
   | .call f a _ =>
     if f = "isAlphaNumeric" then (match evalE cx env a with | .str c => .bool (cx.isAlnum c) | _ => .err "isAlphaNumeric")
+    else if f = "unicode.IsLetter" then (match evalE cx env a with | .str [r] => .bool (cx.isLetter r) | _ => .err "unicode.IsLetter")
+    else if f = "unicode.IsNumber" then (match evalE cx env a with | .str [r] => .bool (cx.isNumber r) | _ => .err "unicode.IsNumber")
     else .err ("call in expression: " ++ f)
   | .pair a b => .pair (evalE cx env a) (evalE cx env b)
   | .width a => (match evalE cx env a with | .num w => .num w | _ => .err "Width")
+  | .tt => .bool true
+  | .ff => .bool false
   | .fst a => (match evalE cx env a with | .pair x _ => x | _ => .err "first result")
   | .snd a => (match evalE cx env a with | .pair _ y => y | _ => .err "second result")
   | .unknown s => .err ("unknown expression " ++ s)
